@@ -178,3 +178,58 @@ Section ParP.
     - destruct (ps pos) as [t p'|code p']; [|discriminate]. apply IH in H. intuition lia.
   Qed.
 End ParP.
+
+(* the token cursor: a cancellation is seen within one poll interval *)
+Section CurP.
+  Variable interval : nat.
+  Hypothesis interval_pos : 0 < interval.
+  Variable done : nat -> bool.
+  Hypothesis monotone : forall a b, a <= b -> done a = true -> done b = true.
+  Notation adv := (adv interval done).
+  Notation advn := (advn interval done).
+
+  Lemma advn_pos : forall n s, fst (advn n s) = fst s + n.
+  Proof.
+    induction n as [|n IH]; intros s; cbn [Ctx.advn]; [lia|]. rewrite IH. unfold Ctx.adv.
+    destruct (snd s); [cbn; lia|]. destruct ((S (fst s) mod interval =? 0) && done (S (fst s))); cbn; lia.
+  Qed.
+
+  Lemma advn_cancelled_sticky : forall n s, snd s = true -> snd (advn n s) = true.
+  Proof.
+    induction n as [|n IH]; intros s H; cbn [Ctx.advn]; [exact H|]. apply IH. unfold Ctx.adv. now rewrite H.
+  Qed.
+
+  (* while the cursor is not cancelled, every poll it passed said "not done" *)
+  Lemma advn_uncancelled : forall n s, snd (advn n s) = false ->
+    forall m, fst s < m <= fst s + n -> m mod interval = 0 -> done m = false.
+  Proof.
+    induction n as [|n IH]; intros s H m Hm Hmod; [lia|]. cbn [Ctx.advn] in H.
+    destruct (snd (adv s)) eqn:E; [rewrite advn_cancelled_sticky in H by exact E; discriminate|].
+    assert (Hp : fst (adv s) = S (fst s)).
+    { unfold Ctx.adv. destruct (snd s); [reflexivity|].
+      destruct ((S (fst s) mod interval =? 0) && done (S (fst s))); reflexivity. }
+    destruct (Nat.eq_dec m (S (fst s))) as [->|Hne].
+    - unfold Ctx.adv in E. destruct (snd s); [discriminate|]. rewrite Hmod, Nat.eqb_refl in E. cbn [andb] in E.
+      destruct (done (S (fst s))); [discriminate|reflexivity].
+    - apply (IH (adv s) H m); [rewrite Hp; lia|exact Hmod].
+  Qed.
+
+  (* prompt: once the context is done (from cursor position t on), a cursor that started at p0 reads real
+     tokens only at positions below max(t, p0) + interval: fewer than [interval] further tokens *)
+  Theorem cursor_cancel_prompt :
+    forall t, done t = true ->
+    forall n s, snd (advn n s) = false -> fst (advn n s) < Nat.max t (fst s) + interval.
+  Proof.
+    intros t Hd n s H. rewrite advn_pos.
+    destruct (le_lt_dec (Nat.max t (fst s) + interval) (fst s + n)) as [Hge|]; [|assumption]. exfalso.
+    set (b := Nat.max t (fst s)) in *.
+    set (m := interval * (b / interval + 1)).
+    pose proof (Nat.div_mod b interval ltac:(lia)) as Hdm.
+    pose proof (Nat.mod_upper_bound b interval ltac:(lia)) as Hub.
+    assert (Hm1 : b < m) by (unfold m; lia).
+    assert (Hm2 : m <= b + interval) by (unfold m; lia).
+    assert (Hmod : m mod interval = 0) by (unfold m; rewrite Nat.mul_comm; apply Nat.mod_mul; lia).
+    assert (Hdone : done m = true) by (apply (monotone t); [unfold b in Hm1; lia|exact Hd]).
+    rewrite (advn_uncancelled n s H m) in Hdone; [discriminate| |exact Hmod]. unfold b in *. lia.
+  Qed.
+End CurP.
